@@ -53,6 +53,8 @@ def _drive(args):
     out = []
     for tid in ids:
         r = drv.rng(seed, 'c14', tid)
+        if tid % 5 == 2:
+            drv.hazard(r)
         ev = []
         n = 4 + tid % 9
         pin = ''.join(r.choice('0123456789') for _ in range(n))
